@@ -85,6 +85,13 @@ pub struct Interpreter<TStdlib: Stdlib, TStdIn: Input, TStdOut: Printer, TLpt1: 
 
     print_state: PrintState,
 
+    /// The call depth of the PRINT statement that `print_state` belongs to, while that statement runs.
+    print_depth: Option<usize>,
+
+    /// PRINT statements that wait for a FUNCTION called by one of their items to return
+    /// (the FUNCTION may PRINT too): the call depth they run at and their print state.
+    suspended_prints: Vec<(usize, PrintState)>,
+
     data_segment: DataSegment,
 
     def_seg: Option<usize>,
@@ -291,6 +298,8 @@ impl<TStdlib: Stdlib, TStdIn: Input, TStdOut: Printer, TLpt1: Printer>
             go_subs_pending_at_error: 0,
             last_error_code: None,
             print_state: PrintState::new(),
+            print_depth: None,
+            suspended_prints: vec![],
             data_segment: DataSegment::default(),
             def_seg: None,
         }
@@ -571,6 +580,7 @@ impl<TStdlib: Stdlib, TStdIn: Input, TStdOut: Printer, TLpt1: Printer>
                 self.registers_mut().set_a(v);
             }
             Instruction::PrintSetPrinterType(printer_type) => {
+                self.begin_print();
                 self.print_state.set_printer_type(*printer_type);
             }
             Instruction::PrintSetFileHandle(file_handle) => {
@@ -595,6 +605,7 @@ impl<TStdlib: Stdlib, TStdIn: Input, TStdOut: Printer, TLpt1: Printer>
             }
             Instruction::PrintEnd => {
                 self.print_end().with_err_at(&pos)?;
+                self.resume_suspended_print();
             }
             Instruction::IsVariableDefined(dim_name) => {
                 debug_assert_ne!(
@@ -648,6 +659,36 @@ impl<TStdlib: Stdlib, TStdIn: Input, TStdOut: Printer, TLpt1: Printer>
     fn undo_push_stack(&mut self) {
         self.context.pop();
         self.stacktrace.remove(0);
+    }
+
+    /// A PRINT statement starts. If it runs inside a FUNCTION that an item of another
+    /// PRINT statement has called, the state of that statement is put aside until this one ends.
+    fn begin_print(&mut self) {
+        let depth = self.stacktrace.len();
+        // what is left of statements of this call, or of a deeper one, that an error ended early
+        while matches!(self.suspended_prints.last(), Some((d, _)) if *d >= depth) {
+            self.suspended_prints.pop();
+        }
+        if let Some(outer_depth) = self.print_depth
+            && outer_depth < depth
+        {
+            let outer = std::mem::replace(&mut self.print_state, PrintState::new());
+            self.suspended_prints.push((outer_depth, outer));
+        }
+        self.print_depth = Some(depth);
+    }
+
+    /// A PRINT statement has ended: the statement of a caller that was waiting for it goes on.
+    fn resume_suspended_print(&mut self) {
+        let depth = self.stacktrace.len();
+        if matches!(self.suspended_prints.last(), Some((d, _)) if *d < depth) {
+            if let Some((outer_depth, outer)) = self.suspended_prints.pop() {
+                self.print_state = outer;
+                self.print_depth = Some(outer_depth);
+            }
+        } else {
+            self.print_depth = None;
+        }
     }
 
     fn choose_printer(&mut self) -> Result<&mut dyn Printer, RuntimeError> {
